@@ -262,6 +262,8 @@ def run_model(model: str, lines: List[str], timeout: float = 600) -> List[str]:
         raise RuntimeError('model driver not built')
     for l in lines:
         assert '\n' not in l, l
+    if not lines:
+        return []
     r = subprocess.run([str(DRIVER), model], input='\n'.join(lines) + '\n', capture_output=True, text=True,
                        timeout=timeout)
     if r.returncode != 0:
